@@ -37,6 +37,7 @@ type Conf struct {
 	ValiditySec  uint64
 	OmitValidity bool
 	KeyLabel     string // "key_label" of the handler configuration (omitted when empty)
+	RawValidity  any    // if non-nil: the value of "cert_validity_sec" as it stands in the file (any JSON type)
 }
 
 // GensignConfig builds the real configuration object from JSON text, as the binary does.
@@ -44,6 +45,9 @@ func GensignConfig(c Conf) (*config.GensignConfig, string, error) {
 	h := map[string]any{"enable": true, "pub_key_dir": c.PubKeyDir, "key_identifiers": c.Identifiers}
 	if !c.OmitValidity {
 		h["cert_validity_sec"] = c.ValiditySec
+	}
+	if c.RawValidity != nil {
+		h["cert_validity_sec"] = c.RawValidity
 	}
 	if c.KeyLabel != "" {
 		h["key_label"] = c.KeyLabel
